@@ -132,6 +132,11 @@ static bool build_case(uint64_t run_seed, Case &c) {
         void *st = random_value(in.td, r.next(), 8 + r.below(120));
         if(!st) continue;
         for(Syntax sy : syns) { EncResult e = encode_to_vec(in.td, st, sy); if(!e.aborted && e.encoded >= 0 && e.out.size() <= 4096) { if(sy == SY_XER || sy == SY_CXER) xer_strip_trailing_ws(e.out); in.enc[sy] = e.out; } }
+        if(in.enc.count(SY_DER)) {     // a BER variant of the same value: indefinite lengths, segmented strings, decimal / special REAL forms
+            BerHints hints; ber_collect_hints(in.td, st, hints);
+            Bytes var; VariantStats vs; Rng rv(r.next());
+            if(ber_variant(in.enc[SY_DER], rv, var, vs, &hints) && var.size() <= 8192) in.enc[SY_BER] = var;
+        }
         free_struct(in.td, st);
         if(!in.enc.empty()) c.inputs.push_back(in);
     }
